@@ -79,7 +79,7 @@ static sexp verif_ctl(sexp ctx, sexp self, sexp_sint_t n, sexp op, sexp arg) {
       vh_budget = sexp_unbox_fixnum(arg); vh_instrs = 0;
       if (vh_time_budget_ns) {
         struct timespec ts;
-        clock_gettime(CLOCK_MONOTONIC, &ts);
+        clock_gettime(CLOCK_PROCESS_CPUTIME_ID, &ts);   /* CPU time: independent of machine load */
         vh_time_deadline_ns = (long long)ts.tv_sec * 1000000000LL + ts.tv_nsec + vh_time_budget_ns;
       }
     }
